@@ -225,11 +225,18 @@ func (msg RtmpMsg) GetEnchanedHevcNaluIndex() int {
 	isExtHeader := msg.Payload[0] & 0x80
 	if isExtHeader != 0 {
 		packetType := msg.Payload[0] & 0x0f
+		// 注意，payload可能比头部还短（不完整的包），返回值不能超过payload的长度，否则调用方切片时会越界
 		switch packetType {
 		case RtmpExPacketTypeCodedFrames:
 			// NALU前面有3个字节CompositionTime
+			if len(msg.Payload) < 5+3 {
+				return len(msg.Payload)
+			}
 			return 5 + 3
 		case RtmpExPacketTypeCodedFramesX:
+			if len(msg.Payload) < 5 {
+				return len(msg.Payload)
+			}
 			return 5
 		}
 	}
